@@ -235,6 +235,6 @@ impl Resolver<'_, PeerAs, PrefixSet<Any>> for RpslEvaluator {
 
     #[tracing::instrument(skip(self), level = "debug")]
     fn resolve(&mut self, _: &PeerAs) -> Result<PrefixSet<Any>, Self::IError> {
-        unimplemented!()
+        Err(Error::UnresolvablePeerAs)
     }
 }
